@@ -47,3 +47,12 @@ Theorem get_is_immediate_exactly_when_something_is_queued : forall size backlog 
   (exists i x, snd (step size backlog s Get) = EImmediate i x) <-> pending s <> [].
 Proof. exact get_immediate_iff. Qed.
 Print Assumptions get_is_immediate_exactly_when_something_is_queued.
+
+(** operations issued from inside a get's callback or errback (re-entrant use of the queue) behave exactly
+    as if they had been issued right after the operation that fired that get, depth first: the re-entrant
+    run equals the plain run of the flat list of operations it executed -- so every theorem above holds for
+    re-entrant histories too *)
+Theorem reentrant_history_is_its_flattening : forall size backlog react fuel s ops s' es done,
+  run_re size backlog react fuel s ops = (s', es, done) -> run size backlog s done = (s', es).
+Proof. exact run_re_flat. Qed.
+Print Assumptions reentrant_history_is_its_flattening.
